@@ -1390,8 +1390,10 @@ class WcParse(Generic[AnyStr]):
             return
 
         index = len(current) - 1
+        resolved = 0
         while index >= 0:
             if isinstance(current[index], InvPlaceholder):
+                resolved += 1
                 content = current[index + 1:]
                 if not nested:
                     content.append(_EOP if not self.pathname else self.path_eop)
@@ -1400,7 +1402,7 @@ class WcParse(Generic[AnyStr]):
                     (_EXCLA_GROUP_CLOSE.format(str(current[index])))
                 )
             index -= 1
-        self.inv_ext = 0
+        self.inv_ext -= resolved
 
     def parse_extend(self, c: str, i: util.StringIter, current: list[str], reset_dot: bool = False) -> bool:
         """Parse extended pattern lists."""
